@@ -1,6 +1,8 @@
 """C09 — WhenAll / Join complete once, at the right moment, with inputs in input order (DESIGN.md §3 C09)."""
 from vlib import conc
 
+from . import _when
+
 RULES = ['regSet.installed', 'regSet.inline', 'fire', 'retire', 'loadFlag.notdone', 'loadFlag.done', 'xchgFlag.win',
          'xchgFlag.lose', 'setOut', 'dec.notlast', 'dec.last', 'dec.notlast.store', 'dec.last.store', 'dtorRel', 'dtorSet',
          'obs.out', 'obs.invalid']
@@ -24,7 +26,8 @@ def run(res, tier):
         search_args=[['--family', 'all', '--mode', 'dfs', '--pb', '3', '--pb3', '2', '--wb', '1', '--max-exec', '400000'],
                      ['--family', 'all', '--mode', 'random', '--random-runs', '3000']],
         unmodelled_ok=NOT_EXHIBITABLE)
+    _when.sanitizer_pass(res, 'C09', tier, 'all', 'c09.cpp')
 
 
 def replay(path):
-    return conc.replay('C09', path)
+    return _when.replay('C09', path)
